@@ -113,6 +113,13 @@ func Ranges(name string, level int) G {
 	// AND pairs
 	for _, sep := range syn.And {
 		g = Alt(g, Seq(ops, b2, Lit(sep), ops, b2))
+		// the same pair with a widened separator (texts that differ only in internal spacing)
+		switch sep {
+		case " ":
+			g = Alt(g, Seq(Lit(">="), b2, Lit("  ", "   "), Lit("<"), b2))
+		case ",":
+			g = Alt(g, Seq(Lit(">="), b2, Lit(" , ", ",  ", " ,"), Lit("<"), b2))
+		}
 		if level > 0 {
 			g = Alt(g, Seq(Lit(">=", ">"), b2, Lit(sep), Lit("<", "<="), b2, Lit(sep), Lit("!=", syn.Ops[len(syn.Ops)-1]), b2))
 		}
